@@ -157,6 +157,27 @@ def bfs(res, prop, sig, conds, facts, extended, rr, validate):
     return len(seen), ntrans
 
 
+def deep_pairs(sig, sems, fin, feas):
+    """At most one pair (B | x,(x,(x,(x,(x,(x,l)))))) / (B | x,(..,!l)) with feasible antecedents and different reference
+    System Z answers."""
+    lits = [V(x) for x in sig] + [N(V(x)) for x in sig]
+    for B in lits:
+        for x in lits:
+            for l in [V(y) for y in sig]:
+                if forms.atoms(x)[0] == l[1]:
+                    continue
+                ant1, ant2 = l, N(l)
+                for _ in range(6):
+                    ant1, ant2 = A(x, ant1), A(x, ant2)
+                q1, q2 = (B, ant1), (B, ant2)
+                s1, s2 = forms.sem(q1, sig), forms.sem(q2, sig)
+                if not ((s1[0] | s1[1]) & feas and (s2[0] | s2[1]) & feas):
+                    continue
+                if ref.ref_z(fin, sems, s1, feas) != ref.ref_z(fin, sems, s2, feas):
+                    return [(q1, q2)]
+    return []
+
+
 def final_checks(res, prop, sig, conds, facts, extended, rr, queries, how="node", with_operator=False, keys=None):
     """Construct, rank lazily in a seed-dependent order, compare everything with the reference."""
     ranks, sems, fin, inf, feas = rr
@@ -204,6 +225,16 @@ def final_checks(res, prop, sig, conds, facts, extended, rr, queries, how="node"
             res.violation(prop, "acceptance-vs-system-z", dict(case, query=forms.ctxt(qc), query_f=qc), exp, acc)
         else:
             res.nontrivial.add(hash((tuple(conds), tuple(facts), extended, qc)))
+    # two queries that agree down to nesting depth 6 and differ below, asked one after the other on the same object
+    for q1, q2 in deep_pairs(sig, sems, fin, feas):
+        for qc in (q1, q2):
+            v, f = forms.sem(qc, sig)
+            exp = ref.ref_z(fin, sems, (v, f), feas)
+            acc = apply_op(obj, ("accept", qc))
+            res.evals += 1
+            if acc is not exp:
+                res.violation(prop, "acceptance-vs-system-z", dict(case, query=forms.ctxt(qc), query_f=qc, deep=True), exp, acc)
+        res.counters["deep_query_pairs"] += 1
     if with_operator and not facts:
         qs = [qc for qc in queries if (forms.sem(qc, sig)[0] | forms.sem(qc, sig)[1]) & feas]
         ans = drive.ask(drive.mkbb(sig, conds), "system-z", "", bool(extended), [drive.mkcond(q) for q in qs])
